@@ -150,7 +150,7 @@ def rule_link_routing(chk, rid):
         chk.ob(rid, C, ok and U(c.args[0]) == f"{pp}.link", f"{'absolute' if absol[0] else 'relative'} link -> self.{call_tail(c)}({pp}.link)" if ok else
                f"{'absolute' if absol[0] else 'relative'} link is routed to self.{call_tail(c)}() (must be {want})", c, m, key=f"route:{'abs' if absol[0] else 'rel'}")
     wraps = [c for c in calls_in(fn) if call_tail(c) == "ExpandedActionParameter"]
-    chk.floor(rid, len(wraps), 2, "ExpandedActionParameter constructions")
+    chk.floor(rid, len(wraps), 1, "ExpandedActionParameter constructions")
     for w in wraps:
         ok = len(w.args) == 3 and U(w.args[0]) == "value.get()" and U(w.args[1]) == f"{pp}.link" and U(w.args[2]) == f"{pp}.position"
         chk.ob(rid, C, ok, "expanded parameter carries the link's value, the link and the position", w, m, key="wrap")
